@@ -30,6 +30,32 @@ def z1(run: Run, prog: Program):
                 f"update_resistances must call update_admittance() and then update_R() "
                 f"unconditionally (R is the pseudo-inverse of the *new* admittance "
                 f"Laplacian); found {order}")
+    # ... on every path: no early return before the derived matrices are rebuilt
+    # (a "nothing changed" shortcut compares against storage the caller may have
+    # edited in place, or against values the derived matrices do not reflect)
+    upd_lines = [c.lineno for c in ast.walk(m.node) if isinstance(c, ast.Call)
+                 and ast.unparse(c.func) in ("self.update_admittance", "self.update_R")]
+    early = [r for r in ast.walk(m.node) if isinstance(r, ast.Return)
+             and upd_lines and r.lineno < max(upd_lines)]
+    # (a shortcut is sound only against a private copy of the last resistances)
+    stores = [st for st in ast.walk(m.node) if isinstance(st, ast.Assign)
+              and ast.unparse(st.targets[0]) == "self.resistances"]
+    private = bool(stores) and all(
+        isinstance(st.value, ast.Call) and (
+            ast.unparse(st.value.func).endswith(".copy") or
+            ast.unparse(st.value.func) in ("np.array", "np.copy", "numpy.array"))
+        and not any(k.arg == "copy" and ast.unparse(k.value) == "False"
+                    for k in st.value.keywords)
+        for st in stores)
+    if private:
+        early = []
+    run.oblige("Z1", "update-unconditional", not early, sample={"where": m.where})
+    for r in early:
+        run.add("Z1", "ResNetwork.update_resistances/early-return",
+                f"{m.module.relpath}:{r.lineno}",
+                "update_resistances returns before update_admittance()/update_R() on "
+                "some path: admittance, R and everything derived from them then "
+                "belong to the previous resistances")
     # the resistances are stored before the derived matrices are rebuilt
     first_upd = None
     store = None
